@@ -89,6 +89,7 @@ func runC15(a *A) {
 	c15R5(a)
 	c15R6(a)
 	c15R7(a)
+	statelessRule(a, "C15-R8", "TableMap/TableID/Rows", []*ssa.Function{a.W.method(a.W.Repl, "binlogEvent", "TableMap"), a.W.method(a.W.Repl, "binlogEvent", "TableID"), a.W.method(a.W.Repl, "binlogEvent", "Rows")}, a.W.Repl)
 }
 
 // isTableIDOf: v is invoke ev.TableID(format) on the stripped event of the iteration.
